@@ -64,31 +64,31 @@ add("C13", "runtime monitor: full option grid per document with equality classes
     "Trusted: field-wise comparison; log output is discarded.",
     "DESIGN.md §5 C13")
 add("C14", "runtime monitor: metamorphic source-separation oracle + by-construction reference model of the precedence rule",
-    "Oracle A: page with all three markup sources vs the same page with one source each: MarkupInfo(all) must be the precedence-combination. Oracle B: canonical pages enumerating 16 required-property subsets x 8 source-presence subsets x og:type x opt-out with unique-token values and the expected MarkupInfo computed by the harness' own model. Held on ~6k pages per quick run, all three article branches, opt-out and OG-disqualified pages observed.",
+    "Oracle A: page with all three markup sources vs the same page with one source each: MarkupInfo(all) must be the precedence-combination. Oracle B: canonical pages enumerating 16 required-property subsets x 8 source-presence subsets x og:type x opt-out with unique-token values and the expected MarkupInfo computed by the harness' own model. Held on ~30k pages per quick run, all three article branches, opt-out and OG-disqualified pages observed.",
     "Trusted: oracle A trusts each parser in isolation; oracle B trusts the harness' model of what a well-formed source provides.",
     "DESIGN.md §5 C14")
 add("C15", "runtime monitor: title provenance oracle + two-step repeat-suppression check",
-    "Generated <title> strings (1-4 parts, 14 separators, lengths 0-300) x h1/h2 x markup titles: Title must equal the markup title, else be the title text, a contiguous part of it or the first h1; exact for 15..150 characters without separator characters; a block whose text is exactly the learnt Title must not be emitted (count-based, so other blocks sharing words do not confuse it). Held on ~6k titles per quick run.",
+    "Generated <title> strings (1-4 parts, 14 separators, lengths 0-300) x h1/h2 x markup titles: Title must equal the markup title, else be the title text, a contiguous part of it or the first h1; exact for 15..150 characters without separator characters; a block whose text is exactly the learnt Title must not be emitted (count-based, so other blocks sharing words do not confuse it). Held on 30k titles per quick run (title attributes, template decoys, SVG tooltips, noscript fallbacks in the h1, ten forms of the repeated block).",
     "Trusted: entity decoding of the generator; conservative reading of 'separator pattern' for the exactness clause.",
     "DESIGN.md §5 C15")
 add("C16", "runtime monitor: pagination-link validity oracle over hostile pagers (anchor set computed independently)",
-    "Hostile pagers (30 dangerous href shapes, gaps, duplicates, descending and calendar runs) x 15 page URLs x both algorithms; every non-empty Next/PrevPage must parse, be http(s), same host, and equal (canonically) the resolution against the real page URL of some anchor of the document. Held on ~40k non-empty links per quick run.",
+    "Hostile pagers (30 dangerous href shapes, gaps, duplicates, descending and calendar runs) x 15 page URLs x both algorithms, one case in four with an element of the page as the root given to Apply (then only anchors below it count); every non-empty Next/PrevPage must parse, be http(s), same host, and equal (canonically) the resolution against the real page URL of some anchor of the document. Held on ~85k non-empty links per quick run.",
     "Trusted: canonical form (case of scheme/host, trailing slash, fragment ignored); the harness' anchor resolution with net/url.",
     "DESIGN.md §5 C16")
 add("C17", "runtime monitor: exhaustive enumeration of the conventional-pager grid against links expected by construction",
-    "N in 2..12 x k x 6 URL families x 3 href forms x trailing slash x separators x decorations (page-number) and x label pairs x with/without numbers (prev/next): 35,112 pagers in quick, x 4 wrappers x noise in thorough; expected next/prev computed by resolving the generated href. Exhaustive over the stated grid.",
+    "N in 2..12 x k x 8 URL families under 2 base paths x page URL with/without fragment x 3 href forms x trailing slash x 6 separators x 6 current-page decorations (page-number) and x 6 label pairs x with/without numbers (prev/next): 133,056 pagers in quick (wrapper, origin and host letter case rotate), x 6 wrappers x noise in thorough; expected next/prev computed by resolving the generated href. Exhaustive over the stated grid.",
     "Trusted: canonical URL comparison. Nothing is demanded of a prev/next side without a labelled anchor.",
     "DESIGN.md §5 C17")
 add("C18", "runtime monitor: reference implementation of the cascade vs black-box observation (<table> in output), exhaustive grid in thorough",
-    "Tables are generated from feature vectors; the reference cascade (30 lines) predicts data/layout; observation is whether the tokens of the table under test sit inside a <table> element of Result.Node (another table may precede it in the document). thorough enumerates the full cross product (11.5M vectors incl. placements), quick covers all single settings, all pairs of settings of two dimensions and a biased sample. Every rule of the cascade is observed deciding.",
+    "Tables are generated from feature vectors; the reference cascade (30 lines) predicts data/layout; observation is whether the tokens of the table under test sit inside a <table> element of Result.Node (another table may precede it in the document). thorough enumerates the full cross product (22.2M vectors incl. placements), quick covers all single settings, all pairs of settings of two dimensions and a biased sample. Every rule of the cascade is observed deciding.",
     "Trusted: the reference implementation of the stated cascade; the observer (a layout table never serialises as <table> outside list items, which are not generated).",
     "DESIGN.md §5 C18")
 add("C19", "runtime monitor: host/path/carrier grid with true host and id known by construction",
-    "30 hosts (allow-listed, subdomains, look-alikes, userinfo tricks, case/port/trailing dot) x 19 path shapes x 8 source forms x 11 carriers = 50,160 cases every run: a placeholder only for a truly allow-listed host, with the service as data-type and the URL's id as data-id; no bare iframe survives. Exhaustive over the stated grid in quick; thorough repeats it inside random articles.",
-    "Trusted: the harness' notion of the true host and of 'the id taken from the URL' (last path segment; data-tweet-id for rendered tweets).",
+    "30 hosts (allow-listed, subdomains, look-alikes, userinfo tricks, case/port/trailing dot) x 23 path shapes x 8 source forms x 12 carriers = 66,240 cases every run: a placeholder only for a truly allow-listed host, with the service as data-type and the URL's id as data-id; no bare iframe survives. Exhaustive over the stated grid in quick; thorough repeats it inside random articles.",
+    "Trusted: the harness' notion of the true host and of 'the id taken from the URL' (last path segment, the segment after status for tweets, the v parameter for YouTube watch pages; data-tweet-id for rendered tweets).",
     "DESIGN.md §5 C19")
 add("C20", "runtime monitor: metamorphic triple (page, marked subtrees deleted, markers neutralised) with feedback-steered threshold sweep",
-    "For each page W = WordCount of the deleted variant decides which variant the page must equal; W is steered by feedback to hit 497..503 exactly and drawn from [250,750] otherwise; only triples where the two variants differ count as non-trivial. Held on ~1.6k triples per quick run with >100 triples at each W in 497..503.",
+    "For each page W = WordCount of the deleted variant decides which variant the page must equal; W is steered by feedback to hit 497..503 exactly and drawn from [250,750] otherwise; only triples where the two variants differ count as non-trivial. Held on 8k triples per quick run with ~400 triples at each W in 497..503; marked subtrees also inside figures, pictures, tweet quotes, table cells, bylines, content-less wrappers and scripted links.",
     "Trusted: equality on Title/Text/HTML/WordCount/ContentImages; markers are restricted to those that feed only the unlikely test.",
     "DESIGN.md §5 C20")
 
